@@ -80,6 +80,8 @@ package olla
 //@   loop 1 invariant !ghost(w).started && rtCount == old(rtCount) + 1 && recSuccess == old(recSuccess) && recFailure == old(recFailure)
 //@   loop 2 invariant !ghost(w).started && rtCount == old(rtCount) + 1 && recSuccess == old(recSuccess) && recFailure == old(recFailure)
 //@   ensures res != nil && (connErr(res) || circuitOpen(res)) ==> !ghost(w).started
+//@   replay proxy_success_on_error_status@internal/adapter/proxy
+//@   at call RecordSuccess 1 assert resp.StatusCode < 400
 //@   ensures recSuccess + recFailure == old(recSuccess) + old(recFailure) + 1
 //@   ensures res == nil ==> recSuccess == old(recSuccess) + 1 && rtCount == old(rtCount) + 1
 //@   ensures rtCount <= old(rtCount) + 1
